@@ -589,7 +589,13 @@ class Check(common.Check):
     PROP = 'C14'
     LEAN_TARGETS = ['Sc3Verif.C14.Props']
     LEAN_DIRS = ['Sc3Verif/C14']
-    THEOREMS = []
+    THEOREMS = ['Sc3Verif.C14.' + t for t in (
+        'note_play_bundles', 'note_play_raises_sends_nothing', 'msg_params_names', 'rest_sends_nothing',
+        'explicit_freq_wins', 'explicit_midinote_wins', 'explicit_amp_wins', 'explicit_delta_wins',
+        'explicit_sustain_wins', 'amp_db_over_velocity', 'amp_from_velocity', 'midinote_note_over_degree',
+        'midinote_degree_over_freq', 'freq_from_degree', 'freq_default', 'chain_degree_to_midinote',
+        'chain_degree_to_freq', 'player_plays_timetable', 'player_time_prefix_sums',
+        'ppar_preserves_child_timelines', 'pdur_total', 'pdur_passes_prefix')]
     N_QUICK = 400
     N_THOROUGH = 8000
     ASSUMPTIONS = []
